@@ -164,3 +164,14 @@ Theorem wmsc_advertised_served :
     wmsc_get_map (sg s) (wmsc_client_rect s (res_at (sg s) l) i j) (tw (sg s)) (th (sg s)) =
     WLoaded (flip_for (sg s) OSW (i, j, l)).
 Proof. exact wmsc_advertised_served_l. Qed.
+
+(* KML super-overlay, the whole document: every GroundOverlay of the document of any address (z, x, y) - for every
+   grid, both origins, global profiles, sqrt2 level skip - carries a link, that link is served, and the tile that is
+   loaded for it covers exactly the LatLonBox written next to the link (in the grid SRS; the WGS84 transformation of
+   the box is outside the model). *)
+Theorem kml_document_links_exact :
+  forall s srv x y z b subs oh r,
+    kml_document s x y z = KmlDoc b subs -> In (oh, r) subs ->
+    exists hx hy hz, oh = Some (hx, hy, hz) /\
+      exists c, served s srv (AKml hz hx hy) = Some c /\ tile_bbox_c (sg s) c = r.
+Proof. exact kml_document_links_exact_l. Qed.
